@@ -26,6 +26,9 @@ pub fn check_case(c: &LoopCase) -> Verdict {
         return Verdict::Inconclusive("test mode".into());
     }
     let o = run_loop(c);
+    if o.abandoned {
+        return Verdict::Inconclusive("runaway run (event budget)".into());
+    }
     if let Err(e) = &o.result {
         return Verdict::fail("unexpected-panic", format!("loop panicked: {e}\ncase: {c:?}"));
     }
